@@ -63,6 +63,7 @@ selftest/mutants/F29-reintroduce.patch C15
 seeded/C02-d/patch.diff C02
 seeded/C08-d/patch.diff C08
 seeded/C09-d/patch.diff C04
+seeded/C09-d/patch.diff C09
 seeded/C14-d/patch.diff C14
 seeded/C18-d/patch.diff C18
 seeded/C18-d/patch.diff C07
